@@ -340,4 +340,12 @@ PROPS["C12"]["engines"].append(CATCHUP)
 PROPS["C04"]["engines"].append(CATCHUP)
 PROPS["C12"]["assumptions"].append("catch-up engine: the leader's real replicateTo (non-pipelined) against a real follower's handlers, model (SV.replicateTo = leader-side loop composed with the handler model) compared request by request; the pipelined mode is exercised only by the cluster engine")
 
-HOOK_COMMITS = ["dfecdf5", "9779dc0", "4292c91", "99b3530", "d0a2b1a"]
+def leader(pid, nq=3000, nt=60000):
+    return {"engine": "leader", "driver": "leader-" + pid, "bin": "h2.test", "quick": ["-n", str(nq)], "thorough": ["-n", str(nt)]}
+
+LEADER_NOTE = "leader engine: the real runLeader / leaderLoop on one server whose peers are played by the harness (every replication and heartbeat request parked in the transport, no virtual time passing), one loop iteration per stimulus, compared with SV.stepLeader observation by observation (durable writes, volatile state, FSM calls, resolved futures with index and response, commitment table, in-flight list, NotifyCh); the replication routines are the environment (their requests are judged against the leader's log, their acknowledgements are inputs); leadership transfer, user Restore and the lease timer are not stepped here"
+for _p in ["C01", "C02", "C03", "C04", "C05", "C07", "C08", "C09", "C12", "C17", "C18"]:
+    PROPS[_p]["engines"].append(leader(_p))
+    PROPS[_p]["assumptions"].append(LEADER_NOTE)
+
+HOOK_COMMITS = ["dfecdf5", "9779dc0", "4292c91", "99b3530", "d0a2b1a", "e08c15a"]
